@@ -123,8 +123,11 @@ class SymbolCodePrinter(StrPrinter):  # type: ignore[misc]
         if denom.is_Mul:
             denom_args = [a for a in denom.args if a != S.One]
             mul_in_denom = len(denom_args) > 1
+        # a reciprocal in the denominator is itself printed as a quotient: a / (1 / x)
+        quotient_in_denom = (denom.is_Pow and denom.is_commutative and
+            (denom.exp is S.NegativeOne or -denom.exp is S.Half))
         sdenom_str = f"({sdenom})" if needs_mul_brackets(denom, first=False,
-            last=True) or mul_in_denom else sdenom
+            last=True) or mul_in_denom or quotient_in_denom else sdenom
         tex = f"{snumer_str} / {sdenom_str}"
         return tex
 
